@@ -13,6 +13,11 @@ NA = {}
 def claim(pid, technique, text, note, ref):
     CLAIMED[pid] = dict(technique=technique, text=text, note=note, ref=ref)
 
+def extend(pid, technique, text):
+    """appends the techniques and clauses added in a later round"""
+    CLAIMED[pid]["technique"] += "; " + technique
+    CLAIMED[pid]["text"] += " " + text
+
 def na(pid, reason):
     NA[pid] = reason
 
